@@ -429,6 +429,7 @@ pub fn run(cfg: &Cfg) {
     let pool = key_pool(0);
     let n = if cfg.thorough { 3000 } else { 180 };
     for i in 0..n {
+        let mut r = r.at(i as u64);
         let layout = gen_layout(&mut r, &pool);
         let lj = serde_json::to_value(&layout).unwrap();
         case::<LayoutMetadata>(&mut sink, &mut r, "LayoutMetadata", &lj);
